@@ -23,8 +23,8 @@ def one(name):
         meta = json.load(open(os.path.join(d, "meta.json")))
     except (OSError, ValueError):
         return name, "no-meta", ""
-    if meta.get("disposition", "").startswith("rejected"):
-        return name, "skipped(rejected seed)", ""
+    if meta.get("disposition", "").startswith(("rejected", "stale")):
+        return name, "skipped(%s seed)" % meta["disposition"].split(":")[0], ""
     v = meta.get("verification", {})
     fired = [k for k, x in v.get("checks", {}).items() if x.get("fired")]
     if not fired:
@@ -51,7 +51,7 @@ def main():
     with ThreadPoolExecutor(max_workers=a.j) as ex:
         for name, status, info in ex.map(one, names):
             print("%-12s %s %s" % (name, status, info if status != "caught" else "(" + info + ")"), flush=True)
-            if status not in ("caught", "skipped(rejected seed)"):
+            if status != "caught" and not status.startswith("skipped("):
                 bad += 1
     print("%d seeds, %d not caught" % (len(names), bad))
     return 1 if bad else 0
